@@ -40,11 +40,13 @@ type Scenario struct {
 	Reconnect string   `json:"reconnect"` // none | handler | other
 	Cycles    int      `json:"cycles"`
 	ConnectUp bool     `json:"connect_while_up"` // call Connect while connected (must be refused, harmlessly)
+	Storm     bool     `json:"storm"`            // many quick cycles of coinciding causes (no settle time between them)
+	Calls     string   `json:"calls"`            // what the handlers call while the disconnect is in progress: "" | me | connected
 }
 
 func (s Scenario) Key() string {
-	return fmt.Sprintf("in=%s out=%s/%s handler=%s causes=%s flood=%v reconnect=%s up=%v",
-		backlogClass(s.In), backlogClass(s.Out), s.OutBy, s.Handler, strings.Join(s.Causes, "+"), s.Flood, s.Reconnect, s.ConnectUp)
+	return fmt.Sprintf("in=%s out=%s/%s handler=%s causes=%s flood=%v reconnect=%s up=%v calls=%s",
+		backlogClass(s.In), backlogClass(s.Out), s.OutBy, s.Handler, strings.Join(s.Causes, "+"), s.Flood, s.Reconnect, s.ConnectUp, s.Calls) + map[bool]string{true: " storm", false: ""}[s.Storm]
 }
 
 var qcap = 32
@@ -156,6 +158,21 @@ type runner struct {
 	deadline time.Duration
 }
 
+// apiCalls: what a running handler may call on the client while a disconnect
+// is in progress (the accessors a handler typically uses).
+func (r *runner) apiCalls(c *client.Conn) {
+	switch r.sc.Calls {
+	case "me":
+		if c.Me() == nil {
+			r.problem("C17", "me-nil", "Me() returned nil inside a handler")
+		}
+		c.StateTracker()
+		c.Config()
+	case "connected":
+		c.Connected()
+	}
+}
+
 func (r *runner) problem(prop, kind, detail string) {
 	r.mu.Lock()
 	r.res.Problems = append(r.res.Problems, Problem{prop, kind, detail, r.cycle})
@@ -250,8 +267,12 @@ func Run(sc Scenario, seed int64) *Result {
 			}
 		}
 		<-release
+		r.apiCalls(c)
 	})
-	c.HandleFunc("FILL", func(c *client.Conn, l *client.Line) { atomic.AddInt32(&r.fill, 1) })
+	c.HandleFunc("FILL", func(c *client.Conn, l *client.Line) {
+		atomic.AddInt32(&r.fill, 1)
+		r.apiCalls(c)
+	})
 
 	if err := r.connect(); err != nil {
 		res.Skipped = "connect failed: " + err.Error()
@@ -313,7 +334,9 @@ func (r *runner) checkFresh() {
 		r.problem("C18", "registration-burst", fmt.Sprintf("NICK sent %d times on the new socket: %q", n, l))
 	}
 	// it must stay up: nothing ended it
-	time.Sleep(30 * time.Millisecond)
+	if !r.sc.Storm {
+		time.Sleep(30 * time.Millisecond)
+	}
 	if srv.IsClosed() || !s.C.Connected() {
 		r.problem("C07", "fresh-connection-torn-down", fmt.Sprintf("the new connection was closed although nothing ended it (socket closed=%v Connected()=%v)", srv.IsClosed(), s.C.Connected()))
 		return
@@ -590,6 +613,11 @@ func Families(tier string, rng *rand.Rand) []Scenario {
 			}
 		}
 	}
+	// handlers that use the accessors while the disconnect is in progress
+	for _, c := range causes {
+		add(Scenario{In: cap + 5, Segs: 2, Causes: c, Handler: "running", Calls: "me", Tracking: c[0] != "close"})
+		add(Scenario{In: cap + 5, Segs: 2, Causes: c, Handler: "running", Calls: "connected"})
+	}
 	// both
 	add(Scenario{In: 2*cap + 2, Out: 2*cap + 2, OutBy: "handler", Handler: "sending", Causes: []string{"close"}})
 	add(Scenario{In: 300, Out: 300, OutBy: "handler", Handler: "sending", Causes: []string{"cancel"}})
@@ -621,6 +649,16 @@ func Families(tier string, rng *rand.Rand) []Scenario {
 			add(Scenario{Reconnect: rc, Cycles: 2, Causes: c, In: cap + 3, Handler: "running", Tracking: true})
 		}
 	}
+	// storms: many cycles in which several causes strike at the same instant (races between closers)
+	storm := 150
+	if tier == "thorough" {
+		storm = 1500
+	}
+	add(Scenario{Reconnect: "other", Cycles: storm, Storm: true, Causes: []string{"close3", "close3", "close2", "cancel"}})
+	add(Scenario{Reconnect: "other", Cycles: storm, Storm: true, Causes: []string{"cancel"}})
+	add(Scenario{Reconnect: "other", Cycles: storm / 3, Storm: true, Causes: []string{"cancel"}, In: 3})
+	add(Scenario{Reconnect: "other", Cycles: storm, Storm: true, Causes: []string{"close3", "eof"}})
+	add(Scenario{Reconnect: "other", Cycles: storm / 2, Storm: true, Causes: []string{"close2", "writeerr", "cancel"}, Ping: true})
 	// flood control on: lines are being rate-limited while the disconnect happens
 	add(Scenario{Flood: true, Out: 12, OutBy: "user", Causes: []string{"close"}})
 	if tier == "thorough" {
@@ -633,6 +671,7 @@ func Families(tier string, rng *rand.Rand) []Scenario {
 			s := Scenario{In: backlogs[rng.Intn(len(backlogs))], Causes: all[rng.Intn(len(all))], Handler: hs[rng.Intn(3)],
 				Tracking: rng.Intn(2) == 0, Ping: rng.Intn(3) == 0, CtxDial: rng.Intn(2) == 0, ConnectUp: rng.Intn(5) == 0}
 			s.Segs = 1 + rng.Intn(6)
+			s.Calls = []string{"", "", "me", "connected"}[rng.Intn(4)]
 			if s.Handler == "sending" {
 				s.Out, s.OutBy = backlogs[1+rng.Intn(len(backlogs)-1)], "handler"
 			}
